@@ -243,6 +243,11 @@ func (w *websocketPeer) Close() {
 	// Tell sendHandler to exit and discard any queued messages. Do not close
 	// wr channel in case there are incoming messages during close.
 	w.cancelSender()
+	// The sender may be blocked writing to a client that stopped reading.
+	// Bound that write, so that closing the peer always returns.
+	if nc, ok := w.conn.(interface{ NetConn() net.Conn }); ok {
+		_ = nc.NetConn().SetWriteDeadline(time.Now().Add(ctrlTimeout))
+	}
 	<-w.writerDone
 	close(w.wr)
 	for range w.wr {
